@@ -35,3 +35,12 @@ Proof.
   destruct (scale_in_box lo hi s pred_one) as (A & B & _); try assumption; try reflexivity.
   unfold in_box1. now rewrite A, B.
 Qed.
+
+(* the full per-gene pipelines (draws included) stay in the box *)
+Theorem gauss_full_in_box x noise mask lo hi : fle lo hi = true -> fis_nan (gauss_full x noise mask lo hi) = false -> in_box1 (gauss_full x noise mask lo hi) lo hi = true.
+Proof. unfold gauss_full. apply gauss_gene_in_box. Qed.
+Theorem arith_gene_in_box a x y lo hi : fle lo hi = true -> fis_nan (arith_combine a x y) = false -> in_box1 (arith_gene a x y lo hi) lo hi = true.
+Proof. unfold arith_gene. apply crossover_gene_in_box. Qed.
+Theorem de_full_in_box take f r0 r1 r2 x lo hi : fle lo hi = true -> in_box1 x lo hi = true ->
+  fis_nan (apply_bounds MReflect (de_donor f r0 r1 r2) lo hi) = false -> in_box1 (de_full take f r0 r1 r2 x lo hi) lo hi = true.
+Proof. unfold de_full. apply de_gene_in_box. Qed.
